@@ -19,7 +19,8 @@ EXPLANATION = (
     "both; (R4) one snapshot id and one sequence number per commit reach every writer; (R5) the mutator cannot remove the "
     "committing snapshot; (R6) metadata log: entry = superseded file, trimmed keeping the newest, applied before the metadata "
     "write; (R7) the delete filter compares paths for equality with BOTH operands under the same leading-slash normalisation."
-    ' Also: (R0) parent repointing walks each survivor independently (no state shared between survivors).')
+    ' Also: (R0) parent repointing walks each survivor independently (no state shared between survivors).'
+    " (R8) a file delete keeps everything else: every existing manifest with surviving files reaches final_manifests.append (path query with the 'no survivors' edge as the only bypass); R6 also ties the trim bound to the properties of the metadata being written.")
 NOT_DECIDED = ("the invariants over operation histories (parents are true ancestors, log order, retention with out-of-order "
                "timestamps) at run time")
 
